@@ -273,6 +273,11 @@ def mutate(
     else:
         # No exception was caught, so write the output file(s)
 
+        # Serialize & encode up front so that a failure can't truncate a file
+        output_data = str(simfile)
+        output_data.encode(encoding)
+        backup_data.encode(encoding)
+
         # Write backup file if requested
         if backup_filename:
             with filesystem.open(
@@ -284,4 +289,4 @@ def mutate(
         with filesystem.open(
             output_filename or input_filename, "w", encoding=encoding, **kwargs
         ) as writer:
-            simfile.serialize(cast(TextIO, writer))
+            writer.write(output_data)
